@@ -57,7 +57,7 @@ func hsNegotiated(h string) bool {
 func hsComplete(h string) bool {
 	switch h {
 	case "wrong_line", "line_nonrequest", "no_versions", "bad_versions", "line_garbage_frame",
-		"request_wrong_code", "open_with_request", "request_no_code", "code_without_request":
+		"request_wrong_code", "open_with_request", "request_no_code", "code_without_request", "old_versions":
 		return true
 	}
 	return false
@@ -65,7 +65,7 @@ func hsComplete(h string) bool {
 
 var hostileHandshakes = []string{"valid", "valid", "valid", "split", "unknown_comp", "extra_versions",
 	"wrong_line", "wrong_line2", "partial_line", "no_line", "line_garbage_frame", "line_nonrequest", "no_versions", "bad_versions", "silent", "line_only",
-	"request_wrong_code", "open_with_request", "request_no_code", "code_without_request"}
+	"request_wrong_code", "open_with_request", "request_no_code", "code_without_request", "old_versions", "old_versions"}
 
 var hostileSteps = []string{"open", "open", "open_data", "data", "close", "window", "batch_open_close", "nested_batch", "dup_open",
 	"unknown_data", "unknown_window", "unknown_close", "garbage_frame", "truncated_frame", "huge_len", "bitflip_open", "window_neg", "window_huge",
@@ -214,6 +214,10 @@ func (h *hostileRun) handshakeBytes(p HostilePeer) []byte {
 			panic(err)
 		}
 		return append(line, frameOf(m)...)
+	case "old_versions":
+		// only versions the server does not implement, some of them below its own
+		lists := [][]pmpx.Version{{9}, {1}, {2, 11}, {9, 8, 7}, {5, 99}}
+		return append(line, req(pmpx.ConnectInput{Versions: lists[(p.StartUs+len(p.Steps))%len(lists)]})...)
 	case "no_versions":
 		return append(line, req(pmpx.ConnectInput{})...)
 	case "bad_versions":
